@@ -138,7 +138,8 @@ func c13Run(c *core.Ctx) {
 			continue
 		}
 		k++
-		if !c.Mine(int64(k)) {
+		// quick: one scenario per worker; thorough: every worker takes its share of every scenario's schedule tree
+		if !c.Thorough() && !c.Mine(int64(k)) {
 			continue
 		}
 		if only := os.Getenv("VERIF_C12_ONLY"); only != "" && only != sc.Name {
@@ -146,6 +147,9 @@ func c13Run(c *core.Ctx) {
 		}
 		w.newReports() // anything written so far does not belong to this scenario
 		e := &gox.Explorer{MaxPreempt: maxS, MaxMapDev: 1, MaxSwitch: maxS, Stop: c.Expired}
+		if c.Thorough() {
+			e.Shard, e.NShards = c.Shard, c.N
+		}
 		nontrivial := int64(0)
 		report := func(choices []int, free bool) {
 			for _, r := range w.newReports() {
@@ -175,7 +179,12 @@ func c13Run(c *core.Ctx) {
 		c.EvalN(int64(e.Executions+free), nontrivial)
 		c.Add("free_running_executions", int64(free))
 		c.Max("max_tasks", int64(e.MaxTasks))
-		c.Observe("scenarios", fmt.Sprintf("%s: %d scheduled executions, %d tasks max", sc.Name, e.Executions, e.MaxTasks))
+		if c.Thorough() {
+			c.Observe("scenarios", sc.Name)
+			c.Add("scheduled_executions["+sc.Name+"]", int64(e.Executions))
+		} else {
+			c.Observe("scenarios", fmt.Sprintf("%s: %d scheduled executions, %d tasks max", sc.Name, e.Executions, e.MaxTasks))
+		}
 		if e.Capped {
 			c.Incomplete("scenario " + sc.Name + ": time budget reached before all schedules within the bound were run")
 		}
